@@ -4,6 +4,7 @@ CONSTANTS
   DefDir = 493
   MaxEntries = 1
   MaxComps = 2
+  Diverge = FALSE
   NameSet = "full"
 SPECIFICATION Spec
 INVARIANT OutsideUntouched
